@@ -138,9 +138,19 @@ Proof. exact gcol_objects_fuel. Qed.
 Print Assumptions C07_global_heap_loop_terminates.
 
 (* object header message buffers and decompression output: constants (k = 0) *)
-Theorem C07_message_buffer_bounded : forall file sz, alloc_bounded 0 131070 file (msg_buffer_request sz).
+Theorem C07_message_buffer_bounded : forall file sz, alloc_bounded 0 65535 file (msg_buffer_request sz).
 Proof. exact msg_buffer_request_bounded. Qed.
 Print Assumptions C07_message_buffer_bounded.
+
+(* header message buffers, repaired code: n one-byte messages request n bytes in total (<= the 5 n bytes they occupy) *)
+Theorem C07_message_storm_bounded : forall n, storm_requests false n <= storm_file_bytes n.
+Proof. exact storm_repaired_bounded. Qed.
+Print Assumptions C07_message_storm_bounded.
+
+(* REFUTED for the pooled buffers of the unrepaired code (4096 bytes per message): no k < 819 works *)
+Theorem C07_pooled_message_buffers_refuted : forall k c, k < 819 -> exists n, k * storm_file_bytes n + c < storm_requests true n.
+Proof. exact storm_pooled_unbounded. Qed.
+Print Assumptions C07_pooled_message_buffers_refuted.
 
 Theorem C07_filter_output_bounded : forall file claimed, alloc_bounded 0 2147484162 file (inflate_requests claimed).
 Proof. exact inflate_requests_bounded. Qed.
